@@ -445,6 +445,7 @@ pub fn record<D: CurveDrv>(cfg: &str, seed: u64, n: usize, profile: &str, out: &
     hdr["p"] = num_to_json(&D::B::modulus(), true); hdr["nlimbs"] = json!(D::B::nlimbs()); hdr["lv"] = json!(D::B::levels(true));
     hdr["r"] = num_to_json(&r_mod, true); hdr["h"] = num_to_json(&h, true); hdr["nreg"] = json!(K);
     if let Some(he) = crate::cfgs::effective_cofactor(cfg) { hdr["heff"] = num_to_json(&he, true); }
+    else if crate::cfgs::clear_cofactor_is_optimised(cfg) { hdr["heff_rel"] = json!(true); }
     writeln!(out, "{}", hdr).unwrap();
     let gen: D::G = <D::G as PrimeGroup>::generator();
     let mut regs: Vec<D::G> = vec![D::G::zero(); K];
